@@ -203,7 +203,10 @@ pub trait Renumber {
                 Ok(s) => s,
                 Err(_) => return Err("apply edits failed".to_string())
             };
-            ans.push(TextEdit::new(Range::new(end_pos,end_pos),line_sep.to_string()));
+            // the moved lines may land behind the last line, which then has to end with a line separator
+            if !all_txt.ends_with("\n") {
+                ans.push(TextEdit::new(Range::new(end_pos,end_pos),line_sep.to_string()));
+            }
             ans.push(TextEdit::new(Range::new(insert_pos,insert_pos),updated_sel));
             for l in sel.start.line..=sel.end.line {
                 let old_rng = Range::new(Position::new(l,0),Position::new(l+1,0));
